@@ -1,0 +1,221 @@
+//go:build verif
+
+package eval
+
+// Verification hooks (build tag "verif" only): a lock-protected in-memory log
+// of the atomic protocol steps of peach, run-parallel, pipelines and the
+// interrupt checks. Nothing here is compiled into a normal build; see
+// trace_noverif.go for the empty stubs.
+//
+// Discipline that makes the log a linearisation the model can replay:
+//
+//   - reads and writes of shared flags (peach's "broken", the interrupt
+//     context) are bracketed by VerifTraceLock / VerifTraceUnlock, so the
+//     access and its log entry are one atomic step with respect to every other
+//     logged step;
+//   - an enabling action (semaphore Release, WaitGroup Done, spawning a
+//     goroutine) is logged before it is performed;
+//   - a consuming action (semaphore Acquire, WaitGroup Wait, the start of a
+//     goroutine) is logged after it has happened.
+
+import (
+	"runtime"
+	"strconv"
+	"strings"
+	"sync"
+	"sync/atomic"
+)
+
+// VerifEvent is one logged step.
+type VerifEvent struct {
+	Ev    *Evaler // the Evaler of the frame that logged the event (nil if none)
+	G     int64   // id of the logging goroutine (only for "chunk." labels, 0 otherwise)
+	Label string
+	Args  []int64
+}
+
+var (
+	verifMu     sync.Mutex
+	verifLog    []VerifEvent
+	verifOn     atomic.Bool
+	verifMask   atomic.Pointer[[]string] // label prefixes to record (nil = all)
+	verifNextID atomic.Int64
+	// VerifPerturb, if not nil, is called (outside the log lock) at every hook
+	// point; the harness uses it to inject runtime.Gosched() and tiny sleeps.
+	VerifPerturb atomic.Pointer[func(label string)]
+)
+
+// VerifTraceStart clears the log and enables logging of the labels that start
+// with one of the given prefixes (all labels if none is given).
+func VerifTraceStart(prefixes ...string) {
+	verifMu.Lock()
+	verifLog = nil
+	verifMu.Unlock()
+	if len(prefixes) == 0 {
+		verifMask.Store(nil)
+	} else {
+		verifMask.Store(&prefixes)
+	}
+	verifOn.Store(true)
+}
+
+func verifWanted(label string) bool {
+	m := verifMask.Load()
+	if m == nil {
+		return true
+	}
+	for _, p := range *m {
+		if strings.HasPrefix(label, p) {
+			return true
+		}
+	}
+	return false
+}
+
+// VerifTraceStop disables logging and returns the log.
+func VerifTraceStop() []VerifEvent {
+	verifOn.Store(false)
+	verifMu.Lock()
+	log := verifLog
+	verifLog = nil
+	verifMu.Unlock()
+	return log
+}
+
+// VerifTraceSnapshot returns a copy of the log so far.
+func VerifTraceSnapshot() []VerifEvent {
+	verifMu.Lock()
+	defer verifMu.Unlock()
+	return append([]VerifEvent(nil), verifLog...)
+}
+
+// VerifTraceID returns a fresh identifier (for one peach / run-parallel call).
+func VerifTraceID() int64 { return verifNextID.Add(1) }
+
+func verifPerturb(label string) {
+	if p := VerifPerturb.Load(); p != nil && verifOn.Load() {
+		(*p)(label)
+	}
+}
+
+func verifGoID() int64 {
+	var buf [64]byte
+	n := runtime.Stack(buf[:], false)
+	// "goroutine 123 [running]:..."
+	var id int64
+	for _, c := range buf[len("goroutine "):n] {
+		if c < '0' || c > '9' {
+			break
+		}
+		id = id*10 + int64(c-'0')
+	}
+	return id
+}
+
+func verifArg(a any) int64 {
+	switch a := a.(type) {
+	case int:
+		return int64(a)
+	case int64:
+		return a
+	case int32:
+		return int64(a)
+	case bool:
+		if a {
+			return 1
+		}
+		return 0
+	case nil:
+		return 0
+	case Exception:
+		return verifOutcome(a)
+	case error:
+		return verifOutcome(a)
+	}
+	return -1
+}
+
+// Outcome classes of a callback: 0 no exception, 1 continue, 2 break,
+// 3 any other exception.
+func verifOutcome(err error) int64 {
+	if err == nil {
+		return 0
+	}
+	switch Reason(err) {
+	case nil:
+		return 0
+	case Continue:
+		return 1
+	case Break:
+		return 2
+	}
+	return 3
+}
+
+func verifAppend(fm *Frame, label string, args []any) {
+	if !verifOn.Load() || !verifWanted(label) {
+		return
+	}
+	e := VerifEvent{Label: label, Args: make([]int64, len(args))}
+	if strings.HasPrefix(label, "chunk.") {
+		e.G = verifGoID()
+	}
+	if fm != nil {
+		e.Ev = fm.Evaler
+	}
+	for i, a := range args {
+		e.Args[i] = verifArg(a)
+	}
+	verifLog = append(verifLog, e)
+}
+
+// VerifTrace logs one step.
+func VerifTrace(fm *Frame, label string, args ...any) {
+	verifPerturb(label)
+	verifMu.Lock()
+	verifAppend(fm, label, args)
+	verifMu.Unlock()
+}
+
+// VerifTraceLock begins an atomic (bracketed) step: the caller performs one
+// non-blocking access to shared state and then calls VerifTraceUnlock.
+func VerifTraceLock() {
+	verifPerturb("lock")
+	verifMu.Lock()
+}
+
+// VerifTraceUnlock logs the bracketed step and ends it.
+func VerifTraceUnlock(fm *Frame, label string, args ...any) {
+	verifAppend(fm, label, args)
+	verifMu.Unlock()
+}
+
+// verifTrace, VerifTraceReset and VerifTraceGet are the frame-less flavour of
+// the same log shared with the other pkg/eval trace hooks (pipelines, ports):
+// verifTrace logs a step without an Evaler, VerifTraceReset clears the log and
+// records every label, VerifTraceGet renders the log as "label arg arg ...".
+
+func verifTrace(label string, args ...any) { VerifTrace(nil, label, args...) }
+
+// VerifTraceReset clears the log and enables logging of all labels.
+func VerifTraceReset() { VerifTraceStart() }
+
+// VerifTraceGet returns the log so far, one string per step.
+func VerifTraceGet() []string {
+	verifMu.Lock()
+	defer verifMu.Unlock()
+	out := make([]string, len(verifLog))
+	for i, e := range verifLog {
+		var sb strings.Builder
+		sb.WriteString(e.Label)
+		for _, a := range e.Args {
+			sb.WriteByte(' ')
+			sb.WriteString(strconv.FormatInt(a, 10))
+		}
+		out[i] = sb.String()
+	}
+	return out
+}
+
+// VerifBackground reports whether fm belongs to a background job.
+func VerifBackground(fm *Frame) bool { return fm.background }
